@@ -426,10 +426,10 @@ func (r *Reader) FindBlockForKey(key []byte) ([]BlockLocator, error) {
 	var blocks []BlockLocator
 	seenBlocks := make(map[uint64]bool)
 
-	// First try binary search for efficiency - find the first block
-	// where the first key is >= our target key
+	// First try binary search for efficiency - find the last block
+	// where the first key is <= our target key
 	indexIter := r.indexBlock.Iterator()
-	indexIter.Seek(key)
+	indexIter.SeekFloor(key)
 
 	// If the seek fails, start from beginning to check all blocks
 	if !indexIter.Valid() {
